@@ -178,6 +178,7 @@ fn code<T>(r: &Result<T, RtcpParseError>) -> u8 {
 }
 
 pub fn judge_a(b: &[u8]) -> VerdictA {
+    crate::ambient::note_delivery(b);
     let mut v = VerdictA { codes: Vec::with_capacity(32), violation: None, panics: 0 };
     macro_rules! packetish {
         ($name:expr, $parse:expr, $pt:expr, $min:expr) => {{
